@@ -56,7 +56,34 @@ def install(I):
     abc_iter.ns["__generic__"] = True
     ext["collections.abc"] = dict(typing_tab, Sequence=abc_seq, Mapping=abc_map, MutableMapping=abc_mmap,
                                   Iterable=abc_iter)
-    ext["collections"] = {"abc": None, "OrderedDict": I.builtins["dict"], "defaultdict": Builtin("defaultdict", None)}
+    def deque(ctx, iterable=(), maxlen=None):
+        # collections.deque over a concrete number of items: a list with the two extra end operations
+        if maxlen is not None:
+            raise Unsupported("deque(maxlen=...)")
+        d = ListVal(I.iterate(ctx, iterable))
+        return Opaque(None, "deque", {"list": d, "truth": lambda ctx2: len(d.items) > 0, "getattr": lambda ctx2, n: _deque_attr(d, n),
+                                      "iter": lambda ctx2: list(d.items), "len": lambda ctx2: len(d.items)})
+
+    def _deque_attr(d, n):
+        def popleft(ctx2):
+            if not d.items:
+                raise I.raise_exc("IndexError")
+            return d.items.pop(0)
+
+        def pop(ctx2):
+            if not d.items:
+                raise I.raise_exc("IndexError")
+            return d.items.pop()
+        tab = {"popleft": popleft, "pop": pop, "append": lambda ctx2, x: d.items.append(x), "appendleft": lambda ctx2, x: d.items.insert(0, x),
+               "extend": lambda ctx2, it: d.items.extend(I.iterate(ctx2, it)),
+               "extendleft": lambda ctx2, it: [d.items.insert(0, x) for x in I.iterate(ctx2, it)] and None,
+               "clear": lambda ctx2: d.items.clear()}
+        if n in tab:
+            return Builtin("deque." + n, tab[n])
+        from .interp import _MISSING
+        return _MISSING
+    ext["collections"] = {"abc": None, "OrderedDict": I.builtins["dict"], "defaultdict": Builtin("defaultdict", None),
+                          "deque": Builtin("collections.deque", deque)}
 
     # ---- abc / functools / enum -------------------------------------------
     abcmeta = cls("ABCMeta", "abc.ABCMeta", [I.builtins["type"]])
